@@ -68,6 +68,7 @@ def gen_value(rng, name, kind):
         pool = ['some value', 'q"uote', '<&>', 'ünï', 'a b ', 'https://ctl.example/x?y=1&z=2']
         if name in ('details', 'model', 'technology', 'allocation_constraints', 'controller_url'):
             pool.append('')        # empty text is a legal value of a plain string property
+            pool.append('None')    # so is the word None (the persistent backend's marker for "unset" is that text)
         return rng.choice(pool)
     if name == 'stitch_node':
         return rng.random() < 0.5
